@@ -16,5 +16,6 @@ Nth(s, k) == IF k = 0 THEN s ELSE Nth(Lcg(s), k - 1)
 Below(r, n) == (r \div 7) % n
 Pick(S, r) == SetToSeq(S)[Below(r, Cardinality(S)) + 1]
 PickSeq(q, r) == q[Below(r, Len(q)) + 1]
-SeedOf(i, base) == Nth(((base * 7919 + i * 104729) % 2147483646) + 1, 3)
+\* (kept below 2^31 for up to 1.6 million seeds; equal to base * 7919 + i * 104729 for small arguments)
+SeedOf(i, base) == Nth((((base % 1000) * 7919 + (i % 16384) * 104729 + (i \div 16384) * 1000003) % 2147483646) + 1, 3)
 =============================================================================
